@@ -60,7 +60,10 @@ class DriverMixin:
         pats = []
         if ax.get("patterns"):
             for p in ax["patterns"]:
-                pats.append(self.spec.eval(p, Env(State(), None, consts)).e)
+                if isinstance(p, (list, tuple)):
+                    pats.append(z3.MultiPattern(*[self.spec.eval(q, Env(State(), None, consts)).e for q in p]))
+                else:
+                    pats.append(self.spec.eval(p, Env(State(), None, consts)).e)
             return z3.ForAll([c.e for c in consts.values()], body, patterns=pats)
         return z3.ForAll([c.e for c in consts.values()], body)
 
@@ -85,6 +88,9 @@ class DriverMixin:
             raise Unsupported("contract parameters %s do not match the function's %s" % (declared, argnames))
         for name in argnames:
             self.assign_var(st, name, params[name])
+        self.is_generator = any(isinstance(n, (ast.Yield, ast.YieldFrom)) for n in ast.walk(ext.node))
+        if self.is_generator:
+            self.assign_var(st, "_yielded", ty.empty_seq(rt0 := self.spec.T(c.returns)))
         self.oblige("pre-sat", st, z3.BoolVal(False), "vacuity", expect="sat")
         body = extract.strip_docstring(ext.node.body)
         outs = self.exec_block(body, st)
@@ -96,6 +102,8 @@ class DriverMixin:
                 raise Unsupported("break/continue outside loop")
             if o.kind in ("normal", "return"):
                 v = o.val if (o.kind == "return" and o.val is not None) else ty.none_val()
+                if self.is_generator:
+                    v = self.read_var(o.st, "_yielded")
                 try:
                     res = ops.coerce(v, rt)
                 except Unsupported:
